@@ -304,7 +304,7 @@ func TestRaceAndAtomicSwitch(t *testing.T) {
 							report("request on kb blocked by rule %q", id)
 						}
 					default: // ordinary traffic with args, attachments, errors, inbound/outbound
-						opts := []sentinel.EntryOption{sentinel.WithArgs(i%3, "x"), sentinel.WithAttachment("k", i%2)}
+						opts := []sentinel.EntryOption{sentinel.WithArgs(i%3, "x", (i*7+g)%23), sentinel.WithAttachment("k", i%2)} // (third argument: many distinct values for the small-capacity rule on t1)
 						if i%2 == 0 {
 							opts = append(opts, sentinel.WithTrafficType(base.Inbound))
 						}
@@ -366,6 +366,12 @@ func TestRaceAndAtomicSwitch(t *testing.T) {
 							lists := [][]*cb.Rule{{{Id: id, Resource: "t3", Strategy: cb.ErrorCount, RetryTimeoutMs: 5, MinRequestAmount: 1, StatIntervalMs: 1000, Threshold: 1000}}, {{Id: id, Resource: "t3", Strategy: cb.ErrorCount, RetryTimeoutMs: 5, StatIntervalMs: 0, Threshold: -1}}, {}, nil}
 							_, err = cb.LoadRulesOfResource("t3", lists[(i/10)%4])
 						case 0:
+							if sw.name != "hotspot" { // a hotspot rule whose parameter cache is far smaller than the number of live values: it evicts all the time
+								if _, e2 := hotspot.LoadRulesOfResource("t1", []*hotspot.Rule{{ID: id, Resource: "t1", MetricType: hotspot.QPS, ParamIndex: 2, Threshold: int64(1000000 + i%2), DurationInSec: 1, ParamsMaxCapacity: 2, SpecificItems: map[interface{}]int64{}},
+									{ID: id + "c", Resource: "t1", MetricType: hotspot.Concurrency, ParamIndex: 2, Threshold: int64(1000000 + i%2), ParamsMaxCapacity: 2, SpecificItems: map[interface{}]int64{}}}); e2 != nil {
+									report("rule load returned %v", e2)
+								}
+							}
 							_, err = cb.LoadRules([]*cb.Rule{{Id: id, Resource: "t0", Strategy: cb.ErrorCount, RetryTimeoutMs: 5, MinRequestAmount: 1, StatIntervalMs: 1000, Threshold: float64(1 + i%3)}})
 						case 1:
 							_, err = cb.LoadRulesOfResource("t1", []*cb.Rule{{Id: id, Resource: "t1", Strategy: cb.ErrorRatio, RetryTimeoutMs: 5, MinRequestAmount: 2, StatIntervalMs: 1000, Threshold: 0.5}})
